@@ -37,6 +37,18 @@ CHECKS = {
     'C04': dict(tech=SYMX, ref='3/C04',
                 text='The self-consistency map x -> (cost(x), totalCorr, directCorr, omega) of the real code is proven, for every symmetric trial vector and all symbolic parameters, (i) equivariant under re-ordering the type list (rank 2 incl. list-assigned tables; rank 3: quick = createPRISM wiring for all 5 orders, thorough = full map with C(k) arbitrary), (ii) equal for a monatomic fluid and its A/A\' split at any ratio (NoIntra and InterMolecular cross omega) and for a homopolymer and its symmetric diblock halves with exact block omegas (all pair functions equal the unsplit one), (iii) unchanged when every energy parameter and kT (assigned, as in a sweep) are multiplied by lambda for every shipped potential, with pmf scaling by lambda. Zeros of equal/equivariant maps correspond, which is the statement about solutions.',
                 note='Which zero scipy converges to is outside. Matrix stage at rank 3 is proven for arbitrary C(k) (forward transform havoc\'d on the Domain instance) and composed with the separately proven equalities via lemma-carrying abstraction. N=2.'),
+    'C05': dict(tech=SYMX, ref='3/C05',
+                text='On PRISM objects made by the real createPRISM (arbitrary user densities, diameters, kT, omega) whose totalCorr/directCorr are hand-populated with arbitrary symmetric symbols in every accepted combination of space flags, the solver proves each calculate.* return value equal to its definition as a function of those symbols: g=h+1, pmf=-kT ln g, S=rho_site*omega+rho_pair*h (normalised or not), B2=-h(k0)/2 or the Lagrange quadratic at 0, spinodal = Lagrange value at 0 of det(I-Omega C) of the pair block (harness cofactor), chi with weights 1/R : R : -2 and prefactor (and (rho/2)(Caa+Cbb-2Cab) for equal volumes), solvation = FT^-1(-kT C S C) / FT^-1(-kT ln(1+C S C)) with S as structure_factor returns it; (a,b)/(b,a) symmetry; on self-consistent objects (I-Omega C) S = Omega. Rank 2-3 (4 for the pair loops), N=3.',
+                note='polyfit/poly1d are an exact least-squares stub (oracle is Lagrange interpolation); log/sqrt Ackermannised with arguments merged when provably the same polynomial; intermediates abstracted with separately proven lemmas.'),
+    'C06': dict(tech=SYMX, ref='3/C06',
+                text='Every ordered pair (and selected triples) of operations from {12 calculate calls with every flag value, user transform of totalCorr/directCorr/omega} is executed on one hand-populated object from several start states of the space flags; after EVERY step the solver proves (i) the abstract content (Omega(k), H(k), C(k) read through the current flags) still equals the base symbols and (ii) the returned value equals the C05 definition on the base symbols - the inductive step that makes results independent of history of any length; no call raises because an array is in the other space; after a history followed by a re-evaluation cost(x) at arbitrary x every stored array and every calculate result equals that of a fresh object evaluated at x. Rank 2 (3 in thorough), N=3.',
+                note='solve itself = root stub contract (C01). The exact round trip on N=3 is re-proven inside the obligations.'),
+    'C12': dict(tech=SYMX, ref='3/C12',
+                text='Real FromArray / FromFile (np.loadtxt stubbed by a symbolic array of the shape loadtxt returns; replays write a real file) with symbolic data, symbolic k column and an arbitrary increasing symbolic domain grid: per path the solver proves returned <=> lengths equal and every |k_i-K_i| within the allclose tolerance (written out; a 1e-6 relative band around the tolerance itself is left unspecified), rejected otherwise; returned values are the stored symbols in order; caller-side mutation after construction does not leak; a second evaluation on another grid is judged against that grid; one-column files of the wrong length (M=1,2,4,6 vs N=3, rank 1-2) never yield a correlation function through createPRISM()+cost(x); exportToMatrixArray refuses unequal lengths.',
+                note='A path on which the code leaves the encodable fragment (e.g. forces float dtype) is re-run concretely on default inputs; a failing claim there is reported, otherwise harness error.'),
+    'C17': dict(tech=SYMX, ref='3/C17',
+                text='Each documented UnitConverter method is executed with a symbolic magnitude (pint multiplies it through): no exception; units as documented; the solver proves magnitude == a*x+b for all x (a*x*d^3 for toVolumeFraction with symbolic diameter) with a,b read off the returned term, and a,b agree to 1e-9 with the textbook values computed from SI-2019 constants carried by the harness; arrays are converted elementwise. Configurations: dc in {1,1.5,0.37} x {nm, angstrom}, ec in {2.48 kJ/mol, 1 kcal/mol, 4.1e-21 J}.',
+                note='Unit strings are concrete (pint parser). pint itself is executed, not modelled.'),
 }
 
 NOT_YET = {}
